@@ -374,6 +374,8 @@ def run_check(pid, tier, seed):
                     header = h
         payload = {"property": pid, "kind": "oracle-failure", "profile": prof, "tier": tier, "seed": seed,
                    "what": f, "case": header, **(case_text(cr["rundir"], header) if header else {})}
+        if pr["failures"]:
+            payload["no_longer_checks"] = pr["failures"]
         violations.append((write_replay(pid, hashlib.sha1(f.encode()).hexdigest()[:10], payload), ""))
         break   # one replay per run is enough; the rest are in meta.json
     if crashed:
